@@ -185,3 +185,25 @@ def queryWriters (c : AddrCodec) (s : State) (ownerAddress topicName : Bytes) (r
     pure (ws, page)
 
 end Panacea.Aol
+
+namespace Panacea.Aol
+open Panacea CompKey
+
+/-! ## Histories -/
+
+/-- One message applied to the state: a failing (or panicking) message leaves the state as it was —
+this is what baseapp's per-transaction cache branch guarantees (see `Model/App.lean`). -/
+def step (c : AddrCodec) (s : State) (op : Int × Msg) : State :=
+  match handle c op.1 s op.2 with
+  | .ok (s', _) => s'
+  | _ => s
+
+def run (c : AddrCodec) (s : State) (ops : List (Int × Msg)) : State := ops.foldl (step c) s
+
+/-- `total_records` of topic `(o, t)` (0 when the topic does not exist). -/
+def totalRecords (s : State) (o t : Bytes) : Nat :=
+  match encode [o, t] with
+  | some tk => ((s.topics.get tk).map (·.totalRecords)).getD 0
+  | none => 0
+
+end Panacea.Aol
